@@ -50,6 +50,7 @@ Configs ==
    Cfg("filter", 1, 0, "meth", 3), CfgW("filter", "if", 3), CfgW("filter", "cond", 3),
    Cfg("product", 1, 0, "first", 0), Cfg("product", 2, 0, "first", 0), Cfg("product", 2, 0, "sum", 0), Cfg("product", 3, 0, "sum", 0),
    Cfg("tryproduct", 1, 0, "sd", 0), Cfg("tryproduct", 2, 0, "sd", 0), Cfg("tryproduct", 2, 0, "none", 0), Cfg("tryproduct", 3, 0, "sd", 0),
+   Cfg("tryproduct", 1, 0, "sdx", 0), Cfg("tryproduct", 2, 0, "sdx", 0),
    Cfg("nonexcl", 2, 0, "arg", 0), Cfg("nonexcl", 3, 0, "noarg", 0),
    Cfg("collector", 1, 0, "-", 0), Cfg("collector", 2, 0, "-", 0)}
 NoArg(cfg) == cfg.kind = "collector" \/ (cfg.kind = "nonexcl" /\ cfg.mode = "noarg")
@@ -63,6 +64,9 @@ InDom(cfg, st) ==
          [trdy : {0, 1}, tval : {1, 2}, irdy : {0, 1}, ival : {2, 3}, ordy : {0, 1}, oval : {1, 3}]
     [] cfg.kind = "filter" /\ cfg.mode = "meth" -> [trdy : {0, 1}, tval : {1, 2}, crdy : {0, 1}, cval : {0, 1}]
     [] cfg.kind \in {"map", "filter", "nonexcl"} /\ cfg.mode # "meth" -> [trdy : {0, 1}, tval : {1, 2}]
+    \* mode "sdx": a third-party transaction of the harness (request xreq, argument xarg) calls target 1 directly
+    [] cfg.kind = "tryproduct" /\ cfg.mode = "sdx" ->
+         [rdy : Bits(cfg.n), val : [1..cfg.n -> {1, 2}], xreq : {0, 1}, xarg : {3}]
     [] OTHER -> [rdy : Bits(cfg.n), val : [1..cfg.n -> {1, 2}]]
 
 \* only the Collector has state: its Forwarder
@@ -93,6 +97,9 @@ Callable(cfg, st, m, arg, calls, inp) ==
     [] cfg.kind = "collector" -> st.full \/ \E i \in 1..cfg.n : inp.rdy[i] = 1
     [] OTHER -> FALSE
 \* index of the target the Collector's crossbar transferred from (0: none)
+\* MethodTryProduct: the call to target i succeeded iff the target is ready and, in mode "sdx", target 1 was not
+\* taken by the third-party caller in this cycle (obs.xran: the third party's transaction ran)
+TrySucc(cfg, inp, obs, i) == IF inp.rdy[i] = 1 /\ ~(cfg.mode = "sdx" /\ i = 1 /\ obs.xran = 1) THEN 1 ELSE 0
 Chosen(cfg, obs) == IF \E i \in 1..cfg.n : obs.ran[i] = 1 THEN CHOOSE i \in 1..cfg.n : obs.ran[i] = 1 ELSE 0
 Result(cfg, st, m, calls, inp, obs) ==
   CASE cfg.kind = "map" -> IF cfg.mode = "meth" THEN inp.oval ELSE Fo(cfg, inp.tval)
@@ -100,8 +107,8 @@ Result(cfg, st, m, calls, inp, obs) ==
     [] cfg.kind = "product" -> IF cfg.mode = "first" THEN inp.val[1] ELSE Mod(cfg, Sum3(inp.val, cfg.n))
     [] cfg.kind = "tryproduct" ->
          IF cfg.mode = "none" THEN 0
-         ELSE [s |-> Sum3([i \in 1..cfg.n |-> inp.rdy[i] * (2 ^ (i - 1))], cfg.n),
-               d |-> Mod(cfg, Sum3([i \in 1..cfg.n |-> inp.rdy[i] * inp.val[i]], cfg.n))]
+         ELSE [s |-> Sum3([i \in 1..cfg.n |-> TrySucc(cfg, inp, obs, i) * (2 ^ (i - 1))], cfg.n),
+               d |-> Mod(cfg, Sum3([i \in 1..cfg.n |-> TrySucc(cfg, inp, obs, i) * inp.val[i]], cfg.n))]
     [] cfg.kind = "nonexcl" -> inp.tval
     [] cfg.kind = "collector" -> IF st.full THEN st.val
                                  ELSE IF Chosen(cfg, obs) # 0 THEN inp.val[Chosen(cfg, obs)] ELSE 0
@@ -138,6 +145,13 @@ ObsSet(cfg, st, calls, inp) ==
          IF cfg.mode = "meth" THEN {[tran |-> B(t), targ |-> IF t THEN a ELSE 0, cran |-> B(c), carg |-> a]}
          ELSE {[tran |-> B(t), targ |-> IF t THEN a ELSE 0]}
     [] cfg.kind = "product" -> {[ran |-> [i \in 1..cfg.n |-> B(c)], arg |-> [i \in 1..cfg.n |-> a]]}
+    [] cfg.kind = "tryproduct" /\ cfg.mode = "sdx" ->
+         \* target 1 is an exclusive method with two potential callers: when both want it the scheduler's choice is
+         \* left open (x = 1: the third party got it)
+         LET X == IF inp.xreq = 1 /\ inp.rdy[1] = 1 THEN (IF c THEN {0, 1} ELSE {1}) ELSE {0} IN
+         {[ran |-> [i \in 1..cfg.n |-> B((c \/ (i = 1 /\ x = 1)) /\ inp.rdy[i] = 1)],
+           arg |-> [i \in 1..cfg.n |-> IF i = 1 /\ x = 1 THEN inp.xarg ELSE IF c /\ inp.rdy[i] = 1 THEN a ELSE 0],
+           xran |-> x] : x \in X}
     [] cfg.kind = "tryproduct" ->
          {[ran |-> [i \in 1..cfg.n |-> B(c /\ inp.rdy[i] = 1)], arg |-> [i \in 1..cfg.n |-> IF c /\ inp.rdy[i] = 1 THEN a ELSE 0]]}
     [] cfg.kind = "nonexcl" -> {[tran |-> B(AnyCaller(cfg, calls)), targ |-> TheArg(cfg, calls)]}
@@ -216,10 +230,15 @@ StepProp(cfg, st, g, req, calls, inp, res, obs, st2) ==
     [] cfg.kind = "tryproduct" ->
          \* never blocks; calls exactly the ready targets and reports which succeeded
          /\ rq => c
-         /\ \A i \in 1..cfg.n : obs.ran[i] = B(c /\ inp.rdy[i] = 1) /\ (obs.ran[i] = 1 => obs.arg[i] = a)
+         /\ cfg.mode # "sdx" => \A i \in 1..cfg.n : obs.ran[i] = B(c /\ inp.rdy[i] = 1) /\ (obs.ran[i] = 1 => obs.arg[i] = a)
          /\ (c /\ cfg.mode = "sd") =>
                /\ \A i \in 1..cfg.n : (res["call"].s \div (2 ^ (i - 1))) % 2 = inp.rdy[i]
                /\ res["call"].d = Mod(cfg, Sum3([i \in 1..cfg.n |-> inp.rdy[i] * inp.val[i]], cfg.n))
+         \* with a third-party caller: a success bit is reported exactly for the targets that executed THIS call
+         \* (a target executes at most one call per cycle; it ran for this call iff it ran and was not taken)
+         /\ (c /\ cfg.mode = "sdx") =>
+               \A i \in 1..cfg.n :
+                  ((res["call"].s \div (2 ^ (i - 1))) % 2 = 1) <=> (obs.ran[i] = 1 /\ ~(i = 1 /\ obs.xran = 1))
     [] cfg.kind = "nonexcl" ->
          \* every call site is served (also several in one cycle) iff the target is ready; the
          \* target runs once and every caller gets its result
